@@ -34,4 +34,6 @@ MUTANTS = [
     m("c08-twin-cn-form", None, T, "            state.mom *= (1.0 - self.mom_resample_coeff**2) ** 0.5\n            state.mom += self.mom_resample_coeff * mom_ind", "            state.mom = (1.0 - self.mom_resample_coeff**2) ** 0.5 * state.mom + self.mom_resample_coeff * mom_ind", twin=True),
     m("c08-bare-draw-implicit-size", "R1", "systems.py", "        return self.metric.sqrt @ rng.standard_normal(state.pos.shape)\n\n\nclass GaussianEuclideanMetricSystem", "        mom = rng.standard_normal(state.pos.shape)\n        if self.metric.shape[0] is None:\n            return mom\n        return self.metric.sqrt @ mom\n\n\nclass GaussianEuclideanMetricSystem", key="untransformed-draw-under"),
     m("c08-twin-bare-draw-identity", None, "systems.py", "        return self.metric.sqrt @ rng.standard_normal(state.pos.shape)\n\n\nclass GaussianEuclideanMetricSystem", "        mom = rng.standard_normal(state.pos.shape)\n        if isinstance(self.metric, matrices.IdentityMatrix):\n            return mom\n        return self.metric.sqrt @ mom\n\n\nclass GaussianEuclideanMetricSystem", twin=True),
+    m("c08-draw-after-scaling-named", "R2", T, '            mom_ind = self.system.sample_momentum(state, rng)\n            state.mom *= (1.0 - self.mom_resample_coeff**2) ** 0.5\n            state.mom += self.mom_resample_coeff * mom_ind\n', '            state.mom *= (1.0 - self.mom_resample_coeff**2) ** 0.5\n            mom_ind = self.system.sample_momentum(state, rng)\n            state.mom += self.mom_resample_coeff * mom_ind\n'),
+    m("c08-twin-scale-named", None, T, '            mom_ind = self.system.sample_momentum(state, rng)\n            state.mom *= (1.0 - self.mom_resample_coeff**2) ** 0.5\n            state.mom += self.mom_resample_coeff * mom_ind\n', '            mom_ind = self.system.sample_momentum(state, rng)\n            keep = (1.0 - self.mom_resample_coeff**2) ** 0.5\n            state.mom *= keep\n            state.mom += self.mom_resample_coeff * mom_ind\n', twin=True),
 ]
